@@ -7,7 +7,7 @@ import (
 	"strings"
 
 	"github.com/taskctl/taskctl/internal/vh/common"
-	"github.com/taskctl/taskctl/internal/vrt"
+	"github.com/taskctl/taskctl/vrt"
 )
 
 // ---- C14: execution-context hooks ----
